@@ -1077,6 +1077,16 @@ impl Inst {
             Op::SerDeSwap
         }
     }
+    /// read-only observers (`&self` methods): Display, Debug, period(), multiplier(), serialize, and a
+    /// clone that is dropped at once. Calling them between two inputs must not change any later output.
+    pub fn observe(&mut self) {
+        let _ = self.display();
+        let _ = self.debug();
+        let _ = self.period();
+        let _ = self.multiplier();
+        let _ = self.ser();
+        let _ = self.try_clone();
+    }
     /// apply a recorded op (used by replays and op-programs); Clone/Ser are executed and dropped
     pub fn apply(&mut self, op: &Op) -> Res {
         fn r<T>(x: Result<T, Panicked>, f: impl FnOnce(T) -> Res) -> Res {
